@@ -201,8 +201,17 @@ _FRAME_RE = re.compile(r'File "([^"\n]+)", line (\d+), in ([^\n]+)')
 _PKG = os.sep + "pyanalyze" + os.sep
 
 
-def _frame_key(frames):
-    """frames: [(file, lineno, func)] outermost first -> ('module:function', 'file:line') of the innermost pyanalyze frame"""
+def _frame_key(frames, exc_name: str = ""):
+    """frames: [(file, lineno, func)] outermost first -> ('module:function', 'file:line') of the innermost pyanalyze frame.
+    For RecursionError the innermost frame is wherever the stack happened to run out: the most frequent pyanalyze frame of
+    the cycle is used instead."""
+    if exc_name == "RecursionError":
+        cnt = collections.Counter((f, fn) for f, _l, fn in frames if _PKG in f and os.sep + "vp" + os.sep not in f)
+        if cnt:
+            top = max(cnt.values())
+            file, func = sorted(k for k, v in cnt.items() if v == top)[0]
+            lineno = next(l for f, l, fn in frames if (f, fn) == (file, func))
+            frames = [(file, lineno, func)]
     for file, lineno, func in reversed(frames):
         if _PKG in file and os.sep + "vp" + os.sep not in file:
             mod = os.path.basename(file)
@@ -271,14 +280,16 @@ def internal_error_key(failure, node_type: str):
         return f"internal_error|direct:{norm_exc_msg(first.split(':')[0])}|{node_type}", "?"
     exc = m.group(1).split(".")[-1]
     frames = frames_of_text(desc)
-    where, fileline = _frame_key(frames)
-    return f"internal_error|{exc}|{where}|{visited_node(frames, desc[m.start():], node_type)}", fileline
+    where, fileline = _frame_key(frames, exc)
+    node = "-" if exc == "RecursionError" else visited_node(frames, desc[m.start():], node_type)
+    return f"internal_error|{exc}|{where}|{node}", fileline
 
 
 def escaped_key(exc: BaseException):
     frames = frames_of_exc(exc)
-    where, fileline = _frame_key(frames)
-    return f"escaped|{type(exc).__name__}|{where}|{visited_node(frames, str(exc), '?')}", fileline
+    where, fileline = _frame_key(frames, type(exc).__name__)
+    node = "-" if isinstance(exc, RecursionError) else visited_node(frames, str(exc), "?")
+    return f"escaped|{type(exc).__name__}|{where}|{node}", fileline
 
 
 def last_line(desc: str) -> str:
@@ -322,7 +333,7 @@ def import_module(source: str):
     scope["__file__"] = filename
     scope["__loader__"] = _FakeLoader(source)
     linecache.lazycache(filename, scope)
-    code = compile(source, filename, "exec")
+    code = compile(source, filename, "exec", dont_inherit=True)  # c12.py itself has `from __future__ import annotations`
     sys.modules[name] = mod
     try:
         exec(code, scope)
@@ -531,6 +542,50 @@ def confirm_fresh(source: str, config: str, key: str):
 # reported keys does not depend on the seed finding a rare crash site again
 
 REGRESSION = [
+    # class keyword visited through visit(): visit_keyword returns a tuple (needs implicit_any, i.e. the 'all' configuration)
+    "from typing import TypedDict\nclass C0(TypedDict, total=False):\n    pass\n",
+    "class Meta(type): pass\nclass C1(metaclass=Meta):\n    pass\n",
+    # Ellipsis default of `detail` reaches CanAssignError.display
+    "def f():\n    return range('a')\n",
+    # suggested return type over a metaclass literal
+    "class Meta(type): pass\ndef f(x):\n    if x:\n        return Meta\n    return int\n",
+    # loop directly in a class body (no function scope)
+    "from typing import NamedTuple\ndef f():\n    class B(NamedTuple):\n        while True:\n            pass\n",
+    "def f():\n    class B:\n        while True:\n            break\n        for i in (): pass\n",
+    # *args preprocessed without a position
+    "import os\ndef f(c):\n    os.path.join(*c, 10**30, 'k')\n",
+    # boolability of ParamSpec components
+    "from typing import ParamSpec\nP = ParamSpec('P')\ndef f(*a: P.args, **k: P.kwargs):\n    if a: pass\n    if k: pass\n    return not a, a and k, (1 if k else 2)\n",
+    # str.splitlines()-only separators (form feed on its own line is legal Python)
+    "def f():\n    pass\n\x0c\ndef g():\n    return undef1\n",
+    "x = 1\n\x0c\ndef g():\n    return undef1  # static analysis: ignore\n",
+    # match value patterns that are not literals
+    "def f(x):\n    match x:\n        case undef1.x:\n            pass\n",
+    # unpacked tuple as *args annotation after an ordinary parameter
+    "def f(p, *args: *tuple[int, str]): pass\n",
+    # bare special forms as annotations
+    "from typing import Annotated\ndef f(x: Annotated): pass\n",
+    "from typing import Annotated\ndef f():\n    x: Annotated\n",
+    # non-type expressions in annotations
+    "from __future__ import annotations\ndef f(a: int or str, b: int if a else str, c: f'{int}', d: lambda: int, e: [x for x in (int,)]): pass\n",
+    "def f(x: 'lambda: 1') -> 'int or str': pass\n",
+    "from __future__ import annotations\nv: int or str = 1\n",
+    # PEP 695 bounds: undefined name, self reference, string that is not a type
+    "def f[T: undef1](x: T) -> T: return x\n",
+    "def f[T: list[T]](x: T) -> T: return x\n",
+    "def f[T: 'lambda: 1'](x: T) -> T: return x\n",
+    # literals too large to print
+    "def f() -> str:\n    return 10 ** 5000\n",
+    "def f():\n    x = 10 ** 5000\n    return x.nope\n",
+    # name-mangled attribute read on a super() object (ClassAttributeChecker)
+    "class C:\n    def f(self):\n        return super().__nope\n",
+    # Callable with a ParamSpec inside the parameter list
+    "from typing import Callable, ParamSpec\nP = ParamSpec('P')\ndef f(x: Callable[[P, int], int]): pass\n",
+]
+# checked through `python -m pyanalyze` by every run (the ClassAttributeChecker of the CLI runs outside any catch-all)
+CLI_REGRESSION = [
+    "class C:\n    def f(self):\n        return super().__nope\n",
+    "from __future__ import annotations\nv: int or str = 1\n",
 ]
 
 
@@ -747,6 +802,17 @@ def cli_phase(ctx) -> None:
             r = termination_probe(name, src, d)
             if r is not None:
                 ctx.violation(r[0], r[1], {"kind": "probe", "name": name, "source": src, "expect": r[0]})
+    for i, src in enumerate(CLI_REGRESSION):
+        if ctx.mine(i + len(TERMINATION_PROBES)):
+            path = os.path.join(d, f"regr{i}.py")
+            with open(path, "w", encoding="utf-8", newline="") as f:
+                f.write(src)
+            ctx.count("cli_invocations")
+            ctx.count("cli_regression_programs")
+            ctx.count("evaluations")
+            r1 = cli_check(path, d)
+            if r1 is not None:
+                ctx.violation(r1[0], r1[1] + "\n--- program ---\n" + src, {"kind": "cli", "source": src, "expect": r1[0]})
     n = ctx.pick(20, 40)
     batch = ctx.pick(5, 5)
     files = []
@@ -802,7 +868,7 @@ def wraps_unhashable(spec) -> bool:
 
 
 def value_key(op: str, exc: BaseException, specs) -> tuple:
-    where, fileline = _frame_key(frames_of_exc(exc))
+    where, fileline = _frame_key(frames_of_exc(exc), type(exc).__name__)
     user = any(os.sep + "vp" + os.sep in fs.filename for fs in traceback.extract_tb(exc.__traceback__)[-1:])
     key = f"value-api|{op}|{type(exc).__name__}|{where}" + ("|raised-by-wrapped-object's-own-method" if user else "")
     return key, fileline
@@ -986,7 +1052,7 @@ def annotation_phase(ctx) -> None:
                     if op == "hash" and isinstance(e, TypeError):
                         ctx.count("hash_typeerror_on_converted_annotation")
                         continue
-                    where, fileline = _frame_key(frames_of_exc(e))
+                    where, fileline = _frame_key(frames_of_exc(e), type(e).__name__)
                     key = f"value-api|{op}-of-converted-annotation|{type(e).__name__}|{where}"
                     ctx.violation(key, f"{op}(type_from_runtime({text})) raised {type(e).__name__}: {str(e)[:200]} at {fileline}",
                                   {"kind": "annotation", "op": op, "text": text, "expect": key})
@@ -1001,7 +1067,7 @@ def annotation_call(ctx, op: str, fn, text: str):
     except (KeyboardInterrupt, SystemExit, MemoryError):
         raise
     except BaseException as e:  # noqa: BLE001
-        where, fileline = _frame_key(frames_of_exc(e))
+        where, fileline = _frame_key(frames_of_exc(e), type(e).__name__)
         key = f"value-api|{op.split('[')[0]}|{type(e).__name__}|{where}"
         ctx.violation(key, f"{op}({text!r}) raised {type(e).__name__}: {str(e)[:200]} at {fileline}",
                       {"kind": "annotation", "op": op, "text": text, "expect": key})
@@ -1070,7 +1136,7 @@ def replay(witness):
                 try:
                     run_value_op(op, [res], None, None)
                 except BaseException as e:  # noqa: BLE001
-                    where, fileline = _frame_key(frames_of_exc(e))
+                    where, fileline = _frame_key(frames_of_exc(e), type(e).__name__)
                     ctx.violation(f"value-api|{op}-of-converted-annotation|{type(e).__name__}|{where}", f"{op} raised {e!r} at {fileline}", witness)
     if not ctx.violations:
         return None
